@@ -158,7 +158,7 @@ def text_view(v):
 
 
 def run(ctx):
-    ctx.check_proofs(["MPilot.Props.C15"])
+    ctx.check_proofs(["MPilot.Props.C15", "MPilot.Props.C15Program"])
     model = common.Model()
     rng = ctx.rng
     tmp = common.tmpdir("mpv_c15_")
